@@ -69,6 +69,12 @@ func init() {
 		assumptions: commonAssumptions,
 		technique:   "abstract interpretation into residual programs + straight-line chain analysis and guard-set rules on the residual ASTs; tabulation of derive.Zero",
 	}
+	checks["C17"] = &checkDef{
+		run: runR_C17,
+		explanation: "Engine R on the slice/string forms of fmap and the slice/strings forms of join: fmap ranges forward over the input (for strings over []rune(s), never over the string itself, whose range index is a byte offset), calls f exactly once per iteration on the range element, stores the result at out[range key], makes the output with the length of the very operand it ranges over, has no early exit and returns that slice; join of slices returns nil for nil, collects into a freshly made slice (never an input's backing array), appends every inner list unconditionally in range order with `...`, no early exit; join of strings is strings.Join with the empty separator; inputs are not written (R10). Not decided: f's behaviour, capacity arithmetic.",
+		assumptions: commonAssumptions,
+		technique:   "abstract interpretation into residual programs + structural loop/effect rules on the residual ASTs",
+	}
 	checks["C07"] = &checkDef{
 		run: func(c *Ctx) {
 			runG4(c.Repo, c.Rep)
